@@ -469,6 +469,25 @@ def run(F, rep, tier):
             else:
                 rep.ok('R10.7', '%s::%s' % (base, m), 'next advances %s, override reads %s' % (sorted(w) or 'nothing', sorted(r)))
     rep.floor('R10.7', 'index/slice overrides', n107, 3)
+    # ---------------- R10.9
+    rep.rule('R10.9', 'clamping is for slice bounds only: clamped_pythonic_index is called from the slice normalisers (pythonic_slice*) and nowhere '
+             'else - an element access that clamps an out-of-range index returns some element instead of raising an index error')
+    ncl = 0
+    for p_ in sorted(F.bodies_raw):
+        if '::promoted' in p_:
+            continue
+        b_ = F.body(p_)
+        for c in b_.calls:
+            if c.target.endswith('clamped_pythonic_index'):
+                ncl += 1
+                owner = p_
+                while owner in F.closure_parent:
+                    owner = F.closure_parent[owner]
+                if re.search(r'pythonic_slice', owner.rsplit('::', 1)[-1]):
+                    rep.ok('R10.9', '%s -> clamped_pythonic_index' % owner, 'slice normaliser')
+                else:
+                    rep.viol('R10.9', '%s|clamped-index' % owner, '%s normalises an index with the clamping helper meant for slice bounds: an index before the start (or past the end) is silently moved to the first (last) position instead of raising' % owner, c.loc())
+    rep.floor('R10.9', 'clamped_pythonic_index call sites', ncl, 2)
     # ---------------- R10.8
     rep.rule('R10.8', 'slice sections keep absent bounds absent: in Func::run (and the closures it defines) every match on a slice-section '
              'bound (Option<Box<Option<Obj>>>, also seen through as_deref as Option<&Option<Obj>>) selects for the input None - "the section '
